@@ -1,5 +1,6 @@
 import AnySyncModel.Core.Wire
 import AnySyncModel.Bytes.Model
+import AnySyncModel.Bytes.KeyProto
 /-! line protocol for area `bytes` (C11): classification of the modelled byte-level logic
 
   x25519 <len>        → err | crypto | panic        (crypto = handed to the trusted primitive)
@@ -10,6 +11,7 @@ import AnySyncModel.Bytes.Model
   spaceid <text>      → err | cid | panic
   snapshot <0|1>      → ok | panic
   ranges <lo> <hi> <df> → <lo:hi,…> | panic
+  keyproto <hex|->    → key=<ok:<type>:<len>|err|panic|fuel> ed=<crypto|err|panic|fuel>
 -/
 namespace AnySync.Driver.Bytes
 open AnySync.Bytes AnySync.Wire
@@ -25,6 +27,26 @@ def textBytes (s : String) : Bytes := if s = "-" then [] else s.toUTF8.toList
 
 def showText (b : Bytes) : String :=
   if b.isEmpty then "-" else String.mk (b.map (fun c => Char.ofNat c.toNat))
+
+def hexVal (c : Char) : Option Nat :=
+  if '0' ≤ c ∧ c ≤ '9' then some (c.toNat - '0'.toNat)
+  else if 'a' ≤ c ∧ c ≤ 'f' then some (c.toNat - 'a'.toNat + 10)
+  else none
+
+def hexBytes : List Char → Option Bytes
+  | [] => some []
+  | [_] => none
+  | a :: b :: rest => do
+    let x ← hexVal a; let y ← hexVal b
+    let r ← hexBytes rest
+    pure (UInt8.ofNat (16 * x + y) :: r)
+
+def keyproto (d : Bytes) : String :=
+  let k := match KeyProto.unmarshalKey d with
+    | .ok k => s!"ok:{k.typ}:{k.data.length}" | .err => "err" | .panic => "panic" | .fuel => "fuel"
+  let e := match KeyProto.unmarshalEd25519PublicKeyProto d with
+    | .ok _ => "crypto" | .err => "err" | .panic => "panic" | .fuel => "fuel"
+  s!"key={k} ed={e}"
 
 def step (line : String) : String :=
   match tokens line with
@@ -46,6 +68,10 @@ def step (line : String) : String :=
   | ["snapshot", p] =>
     match bool? p with
     | some p => cls "ok" (stateFromSnapshot (if p then some [] else none))
+    | none => "bad-op"
+  | ["keyproto", h] =>
+    match (if h = "-" then some [] else hexBytes h.toList) with
+    | some d => keyproto d
     | none => "bad-op"
   | ["ranges", lo, hi, df] =>
     match lo.toNat?, hi.toNat?, df.toNat? with
